@@ -89,13 +89,13 @@ func (c *conn) runStmt(st ast.StmtNode, args []Value) (*result, error) {
 		}
 		c.implicitCommit()
 		for _, tn := range x.Tables {
-			if _, ok := s.tables[tn.Name.L]; !ok {
+			if _, ok := s.tables[s.tblKey(tn.Schema.O, tn.Name.O)]; !ok {
 				if x.IfExists {
 					continue
 				}
 				return nil, myErr(ErBadTable, "Unknown table '%s.%s'", s.Schema, tn.Name.O)
 			}
-			delete(s.tables, tn.Name.L)
+			delete(s.tables, s.tblKey(tn.Schema.O, tn.Name.O))
 		}
 		return &result{}, nil
 	case *ast.TruncateTableStmt:
@@ -191,7 +191,7 @@ func (c *conn) table(tn *ast.TableName) (*Table, error) {
 	if tn.Schema.L == "information_schema" {
 		return nil, unsupported("information_schema.%s outside SELECT", tn.Name.O)
 	}
-	t := s.tables[tn.Name.L]
+	t := s.tables[s.tblKey(tn.Schema.O, tn.Name.O)]
 	if t == nil {
 		schema := s.Schema
 		if tn.Schema.O != "" {
@@ -1071,13 +1071,16 @@ func (c *conn) doCreateTable(x *ast.CreateTableStmt) (*result, error) {
 	if x.ReferTable != nil || x.Select != nil || x.Partition != nil {
 		return nil, unsupported("CREATE TABLE ... LIKE/SELECT/PARTITION")
 	}
-	if _, ok := s.tables[x.Table.Name.L]; ok {
+	if _, ok := s.tables[s.tblKey(x.Table.Schema.O, x.Table.Name.O)]; ok {
 		if x.IfNotExists {
 			return &result{}, nil
 		}
 		return nil, myErr(ErTableExists, "Table '%s' already exists", x.Table.Name.O)
 	}
 	t := &Table{Name: x.Table.Name.O, colIdx: map[string]int{}, autoInc: 1}
+	if k := s.tblKey(x.Table.Schema.O, x.Table.Name.O); strings.Contains(k, ".") {
+		t.Schema = x.Table.Schema.O
+	}
 	e := &env{c: c, srv: s}
 	addIndex := func(name string, cols []int, unique, primary bool) error {
 		if primary {
@@ -1232,7 +1235,7 @@ func (c *conn) doCreateTable(x *ast.CreateTableStmt) (*result, error) {
 			t.autoInc = int64(o.UintValue)
 		}
 	}
-	s.tables[x.Table.Name.L] = t
+	s.tables[s.tblKey(x.Table.Schema.O, x.Table.Name.O)] = t
 	return &result{}, nil
 }
 
